@@ -20,7 +20,7 @@ RULE = ('histories of 1..7 requests through a real Router with SignedCookieSessi
         'reissue_time, set_on_exception, hashalg, secret, salt, max_age, cookie attributes); each request advances a fake '
         'clock (quarter seconds; advances are aimed at the exact timeout / reissue boundaries of the cookie in the jar), '
         'presents the latest / no / an older / an edited / a foreign-key / a hand-signed cookie, runs 0..7 session calls '
-        '(each with its own clock advance) or does not touch the session, and may raise into an exception view.  A history '
+        '(each with its own clock advance; explicit defaults of pop/get/setdefault come from the pool of stored values, often the stored value itself) or does not touch the session, and may raise into an exception view.  A history '
         'is non-trivial when some request starts with non-empty data loaded from a cookie set by an earlier request, or '
         'presents a cookie that is expired / refused / edited, or a response callback refuses an oversize cookie; '
         'distinct = distinct canonical case JSON')
@@ -175,7 +175,7 @@ def do_op(s, op):
     k = op[0]
     try:
         if k == 'get':
-            return ['val', enc(s.get(op[1]))]
+            return ['val', enc(s.get(op[1]) if len(op) == 2 else s.get(op[1], dec(op[2])))]
         if k == 'getitem':
             return ['val', enc(s[op[1]])]
         if k == 'contains':
@@ -513,7 +513,7 @@ def ref_op(op, d):
     """ISession semantics of one call on an insertion-ordered dict `d` (mutated in place); returns the canonical
     result.  Written from the ISession / dict documentation, not from session.py."""
     k = op[0]
-    if k == 'get': return ['val', enc(d.get(op[1]))]
+    if k == 'get': return ['val', enc(d.get(op[1]))] if len(op) == 2 else ['val', enc(d.get(op[1], dec(op[2])))]
     if k == 'getitem': return ['val', enc(d[op[1]])] if op[1] in d else 'keyerror'
     if k == 'contains': return ['bool', op[1] in d]
     if k == 'len': return ['nat', len(d)]
@@ -731,7 +731,10 @@ def compare(case, rn, mo):
 
 KEYS = ['a', 'b', 'k', 'user', 'é', 'x y', '"q"', '\\', '😀', '', '_f_', '_f_q', '_csrft_', 'big']
 VALS = [None, True, False, 0, 1, -5, 2 ** 40, 'v', '', 'é€', '😀\n', 'a"b\\c', [], [1, 'a'], [True, None, [2]],
-        {'a': 1}, {}, {'z': [1, {'y': None}], 'a': 'b'}, 'x' * 40, '\x00\x7f\x1f']
+        {'a': 1}, {}, {'z': [1, {'y': None}], 'a': 'b'}, 'x' * 40, '\x00\x7f\x1f', 'l\u2028s\x85']
+# the small pool shared by stored values AND explicit defaults (pop / get / setdefault): singletons and interned objects, so
+# that "stored value == default" and "stored value IS the default object" both occur often
+SMALL = [None, True, False, 0, 1, '', 'a', []]
 QUEUES = ['', 'q', 'err']
 MSGS = ['m1', 'm2', 'm1', 1, True, 0, False, ['x'], {'a': 1}, None, 'é']
 SECRETS = ['s3cret', 'another-secret', 'sécret', 'x' * 70]
@@ -745,7 +748,7 @@ def tok(rng):
 
 
 def gen_opts(rng):
-    return {'timeout': rng.choice([None, 0, 1, 2, 3, 5, 10, 1200]), 'reissue': rng.choice([None, 0, 0, 1, 2, 5, 30]),
+    return {'timeout': rng.choice([None, 0, 1, 2, 3, 5, 10, 1200]), 'reissue': rng.choice([None, None, None, 0, 0, 1, 2, 5, 30, 99999]),
             'soe': rng.random() < 0.6, 'hashalg': rng.choice(ALGS), 'secret': rng.choice(SECRETS), 'salt': rng.choice(SALTS),
             'max_age': rng.choice([None, None, 0, 100, '50']), 'name': rng.choice(['session', 'session', 'sid']),
             'tform': rng.choice(['int', 'int', 'float', 'str']), 'secure': rng.random() < 0.3, 'httponly': rng.random() < 0.3,
@@ -753,30 +756,45 @@ def gen_opts(rng):
             'domain': rng.choice([None, None, 'example.com'])}
 
 
-def gen_op(rng, poisoned):
+def pick_val(rng):
+    return rng.choice(SMALL) if rng.random() < 0.5 else rng.choice(VALS)
+
+
+def gen_op(rng, poisoned, held=None):
+    """`held`: the items of the cookie in the jar ([[k, enc v]…]) — keys and defaults are aimed at them"""
     r = rng.random()
     k = rng.choice(KEYS)
-    if r < 0.08: return ['get', k]
+    stored = None
+    if held and rng.random() < 0.5:
+        k, stored = rng.choice(held)
+    def dflt():
+        # an explicit default: often exactly the stored value (same object for None/bool/small int/interned str)
+        if stored is not None or (held and k in [a for a, _ in held]):
+            if rng.random() < 0.6:
+                return [b for a, b in held if a == k][0]
+        return enc(rng.choice(SMALL)) if rng.random() < 0.7 else enc(rng.choice(VALS))
+    if r < 0.05: return ['get', k]
+    if r < 0.09: return ['get', k, dflt()]
     if r < 0.12: return ['getitem', k]
     if r < 0.15: return ['contains', k]
     if r < 0.18: return [rng.choice(['len', 'keys', 'items', 'values', 'iter'])]
     if r < 0.36:
-        v = rng.choice(VALS)
+        v = pick_val(rng)
         if k.startswith('_f_') and not isinstance(v, list): poisoned.add(k[3:])
         return ['set', k, enc(v)]
-    if r < 0.42: return ['del', k]
-    if r < 0.48:
-        kv = [[rng.choice(KEYS), enc(rng.choice(VALS))] for _ in range(rng.randrange(4))]
+    if r < 0.41: return ['del', k]
+    if r < 0.46:
+        kv = [[rng.choice(KEYS), enc(pick_val(rng))] for _ in range(rng.randrange(4))]
         for a, b in kv:
             if a.startswith('_f_') and not (isinstance(b, dict) and 'l' in b): poisoned.add(a[3:])
         return ['update', kv]
-    if r < 0.54: return ['pop', k] if rng.random() < 0.5 else ['pop', k, enc(rng.choice(VALS))]
+    if r < 0.55: return ['pop', k] if rng.random() < 0.3 else ['pop', k, dflt()]
     if r < 0.57: return ['popitem']
-    if r < 0.62:
-        v = rng.choice(VALS)
+    if r < 0.63:
+        v = dec(dflt())
         if k.startswith('_f_') and not isinstance(v, list): poisoned.add(k[3:])
         return ['setdefault', k, enc(v)]
-    if r < 0.64: return ['clear']
+    if r < 0.65: return ['clear']
     if r < 0.76:
         q = rng.choice(QUEUES)
         return ['flash', enc(rng.choice(MSGS)), q, True if q in poisoned else rng.random() < 0.5]
@@ -855,9 +873,18 @@ def gen_req(rng, rn, st):
         present = ['otherkey', k]
     else:
         present = ['wire', enc(gen_wire(rng, rn.clock + dq))]
+    held = latest['payload']['data'] if (latest is not None and present == 'latest') else None
     r = rng.random()
     if r < 0.06:
         ops = None
+    elif held and r < 0.16:
+        # the only modifying call removes a key with a default that is (often) the stored value itself; reads around it
+        k, v = rng.choice(held)
+        d = v if rng.random() < 0.7 else enc(rng.choice(SMALL))
+        only = rng.choice([['pop', k, d], ['pop', k, d], ['pop', k], ['del', k], ['setdefault', rng.choice(KEYS), d], ['pop_flash', k[3:] if k.startswith('_f_') else 'q']])
+        reads = [['get', k, d], ['contains', k], ['len'], ['peek_flash', ''], ['getitem', k]]
+        ops = [[0, rng.choice(reads)] for _ in range(rng.randrange(2))] + [[0, only]] + [[0, rng.choice(reads)] for _ in range(rng.randrange(2))]
+        st['single_modifier'] = st.get('single_modifier', 0) + 1
     else:
         n = rng.choice([0, 1, 1, 2, 2, 3, 3, 4, 5, 7])
         ops = []
@@ -865,7 +892,7 @@ def gen_req(rng, rn, st):
             odq = 0 if rng.random() < 0.6 else rng.choice([1, 2, 3, 4, 5, 8])
             if R is not None and latest is not None and rng.random() < 0.1:
                 odq = max(0, latest['payload']['accessed'] + 4 * R + rng.choice([0, 1, 4, 5]) - rn.clock - dq - sum(x[0] for x in ops))
-            ops.append([odq, gen_op(rng, st['poisoned'])])
+            ops.append([odq, gen_op(rng, st['poisoned'], held)])
         if rng.random() < 0.06:
             # aim at the size limit: total JSON text of 3048 - dsize bytes is exactly 4064 characters
             base = latest['payload']['size'] if latest else 0
@@ -1064,6 +1091,8 @@ def run(ctx):
             items.append((c, run_case(c))); ncorpus += 1
     for c in scope_cases(ctx.n(1, 2)):
         items.append((c, run_case(c))); ncorpus += 1
+    for c in default_scope(ctx.n(1, 2)):
+        items.append((c, run_case(c))); ncorpus += 1
     t_gen = 0
     for _ in range(n):
         items.append(gen_case(rng, st))
@@ -1075,7 +1104,8 @@ def run(ctx):
     dist = {'present': {}, 'outcome': {}, 'ops_per_request': {}, 'op': {}, 'op_errors': {}, 'load_raised': {}, 'raised_views': {},
             'requests_per_history': {}, 'loaded_nonempty': 0, 'at_timeout_exactly': 0, 'one_quarter_past_timeout': 0, 'expired': 0,
             'cookie_exactly_at_limit': 0, 'refused_just_above_limit': 0, 'at_reissue_exactly': 0, 'just_past_reissue': 0,
-            'aimed': {k: st[k] for k in ('aimed_timeout', 'aimed_reissue', 'aimed_size')}, 'known': {}, 'hashalg': {}, 'spec_compared': 0}
+            'aimed': {k: st.get(k, 0) for k in ('aimed_timeout', 'aimed_reissue', 'aimed_size', 'single_modifier')}, 'known': {}, 'hashalg': {},
+            'spec_compared': 0, 'pop_default_equals_stored': 0, 'pop_default_equals_stored_only_modifier_no_reissue': 0, 'reissue_option': {}}
     for (case, rn), mo in zip(items, model):
         vs = judge(case, rn)
         viol.extend(vs)
@@ -1087,6 +1117,25 @@ def run(ctx):
         if mo is not None and mo.get('spec') is not None: dist['spec_compared'] += 1
         vfutil.bump(dist['requests_per_history'], len(case['reqs']))
         vfutil.bump(dist['hashalg'], case['opts']['hashalg'])
+        vfutil.bump(dist['reissue_option'], str(case['opts']['reissue']))
+        for req, obs in zip(case['reqs'], rn.trace):
+            if req['ops'] and obs['start'] is not None:
+                cur = {k: v for k, v in obs['start']['data']}
+                hit = False
+                for _, op in req['ops']:
+                    if op[0] == 'pop' and len(op) == 3 and op[1] in cur and cur[op[1]] == op[2]:
+                        hit = True
+                    ref_tmp = {k: dec(v) for k, v in cur.items()}
+                    try:
+                        ref_op(op, ref_tmp)
+                    except Exception:      # noqa
+                        pass
+                    cur = {k: enc(v) for k, v in ref_tmp.items()}
+                if hit:
+                    dist['pop_default_equals_stored'] += 1
+                    mods = [op for _, op in req['ops'] if op[0] in WRAPPED_CHANGED or op[0] == 'changed']
+                    if len(mods) == 1 and case['opts']['reissue'] in (None, 99999):
+                        dist['pop_default_equals_stored_only_modifier_no_reissue'] += 1
         nt = describe(case, rn, dist, st)
         key = vfutil.canon(case)
         if key not in seen:
@@ -1171,6 +1220,29 @@ def scope_cases(depth):
                                     {'dq': 4, 'present': 'latest', 'ops': [[0, ['items']]], 'raised': False}]}
 
 
+def default_scope(depth):
+    """stored value x explicit default over the SAME small pool: request 1 stores session['a'] = v, request 2 runs every
+    sequence of <= depth calls from an alphabet of pop / get / setdefault with every default of the pool (plus a few reads and
+    writes), request 3 reads; no reissue (None and a very large reissue_time), no timeout — so the only reason for a
+    Set-Cookie in request 2 is the modification itself"""
+    alpha = ([['pop', 'a', enc(d)] for d in SMALL] + [['pop', 'a'], ['pop', 'b', None], ['del', 'a'], ['pop_flash', ''], ['peek_flash', ''],
+             ['len'], ['set', 'b', 0], ['clear']]
+             + [['get', 'a', enc(d)] for d in (None, 0, 'a')] + [['setdefault', 'a', enc(d)] for d in (None, 1)] + [['setdefault', 'b', None]])
+    seqs = [[a] for a in alpha]
+    if depth >= 2:
+        seqs += [[a, b] for a in alpha for b in alpha]
+    if depth >= 3:
+        pops = [a for a in alpha if a[0] in ('pop', 'get', 'setdefault')]
+        seqs += [[a, b, c] for a in pops for b in pops[:6] for c in pops[:6]]
+    for i, v in enumerate(SMALL):
+        for seq in seqs:
+            for R in ((None,) if (depth >= 2 and len(seq) >= 2) else (None, 99999)):
+                yield {'opts': base_opts(timeout=None, reissue=R), 'clock0': 400 + i % 4,
+                       'reqs': [{'dq': 0, 'present': 'latest', 'ops': [[0, ['set', 'a', enc(v)]]], 'raised': False},
+                                {'dq': 5, 'present': 'latest', 'ops': [[0, op] for op in seq], 'raised': False},
+                                {'dq': 5, 'present': 'latest', 'ops': [[0, ['items']]], 'raised': False}]}
+
+
 def edit_scope():
     """every single-character substitution / deletion / insertion and every short append of one valid cookie"""
     base = [{'dq': 0, 'present': 'latest', 'ops': [[0, ['set', 'a', 1]], [0, ['flash', 'm', '', True]]], 'raised': False}]
@@ -1210,7 +1282,7 @@ def search(ctx):
         return False
 
     exhaustive = True
-    for c in scope_cases(2):
+    for c in itertools.chain(default_scope(3), scope_cases(2)):
         consider(c)
         if len(viol) >= 3 or ctx.time_left() < 60:
             exhaustive = False
@@ -1242,7 +1314,7 @@ def search(ctx):
         if sv:
             viol = [sv[0]] + viol
     return {'violations': viol[:5], 'searched': searched, 'exhaustive': exhaustive and not viol,
-            'scope': 'all sequences of <= 2 of %d calls x 3 clock advances around timeout/reissue; option cube; every single-character edit of one cookie; 20000 random histories' % len(SCOPE_OPS)}
+            'scope': 'stored value x default over the same 8-value pool: all sequences <= 2 (and pop/get/setdefault sequences of 3) of 27 calls in the middle of 3 requests, no reissue; all sequences of <= 2 of %d calls x 3 clock advances around timeout/reissue; option cube; every single-character edit of one cookie; 20000 random histories' % len(SCOPE_OPS)}
 
 
 def replay(ctx, rep):
